@@ -650,4 +650,13 @@ func TestVerifDelivery(t *testing.T) {
 		tr.Case(c, "delivery")
 		run(deliveryGen(root.Fork()))
 	}
+	// corpus: the fleet of the known finding runs on every seed (no miner large enough for a minimum job in one
+	// cycle, rate below the full-miner threshold)
+	tr.Case(n, "delivery")
+	ops := []string{"world hrs=" + strings.TrimSuffix(strings.Repeat("120,", 27), ",") + " cycle=120 acct=1", "chain c1 state=0 len=720 hr=300", "startnode",
+		"purchased c1 len=750 hr=300 payload=v:poolx"}
+	for i := 0; i < 14; i++ {
+		ops = append(ops, "advance 60")
+	}
+	run(ops)
 }
